@@ -298,3 +298,7 @@ func emit(r nativeResult) {
 	data, _ := json.Marshal(r)
 	fmt.Println("ZVRESULT " + string(data))
 }
+
+// NoSummaries makes the engine explore pure functions path by path instead
+// of folding them into one term (used where the function itself is the subject).
+func NoSummaries() {}
